@@ -179,6 +179,11 @@ func runC02(c *Ctx) {
 			w = f.AfterEdgesMustPass(won, take, nil)
 			c.Check(w == nil && len(won) > 0, key+"/won⇒take", "a re-acquired Scheduled state is taken back to Processing by the same turn (or lost to another worker), never left Scheduled without a queue entry", c.P.Pos(pr.fn.Decl.Pos()), f.describe(w))
 		}
+		// no other release of turn ownership exists: a reset elsewhere has no recheck
+		c.WhoMayCall("release-sites", t.reset, map[string]string{
+			"actor.(*PID).finishOrReclaim": "release with recheck (above)", "actor.(*grainPID).finishOrReclaim": "release with recheck (above)",
+			"actor.restartSubtree": "restart of a quiescent, not yet re-initialised actor (C01 reset-quiescence)",
+		})
 		// fair mailbox: every active.Store(false) is followed by a recheck + CAS
 		active := c.Field("actor", "senderBox", "active")
 		pending := c.Field("actor", "senderBox", "pending")
